@@ -187,6 +187,7 @@ ChildPlan World::OnSpawn(Kernel& kk, const std::string& cmd, bool console) {
   rec.pool = s.pool;
   rec.depfile = s.depfile;
   rec.deps_kind_depfile = s.deps_kind == 1 || s.deps_kind == 2;
+  rec.pre_depfile = !s.depfile.empty() && kk.Exists(s.depfile);
   for (auto& o : rec.outs) {
     std::string c;
     if (kk.ReadFile(o, &c)) rec.pre_outs[o] = std::make_pair(c, kk.Mtime(o));
@@ -320,7 +321,15 @@ ChildPlan World::OnSpawn(Kernel& kk, const std::string& cmd, bool console) {
   else if (s.deps_kind == 2) rec.reported_deps = rs;
   if (s.deps_kind == 3) {
     std::string o;
-    for (auto& h : hidden) o += MsvcPrefix(s) + h + "\n";
+    for (auto& h : hidden) {
+      // compilers spell the same file in several ways (as the depfile writers below do)
+      std::string sp = h;
+      uint64_t style = Hash64(h, rec.seq) % 6;
+      if (style == 0) sp = "./" + h;
+      else if (style == 1) { size_t sl = h.find('/'); sp = sl == std::string::npos ? "././" + h : h.substr(0, sl) + "//" + h.substr(sl + 1); }
+      else if (style == 2) { size_t sl = h.find('/'); sp = sl == std::string::npos ? h : h.substr(0, sl) + "/./" + h.substr(sl + 1); }
+      o += MsvcPrefix(s) + sp + "\n";
+    }
     if (MsvcPrefix(s) != "Note: including file: ") stats->n["msvc_custom_prefix"]++;
     if (r.plan.garbage_child_output) {
       // compiler output parsed for /showIncludes can be anything
